@@ -103,7 +103,16 @@ pub struct Case {
     pub src: u8,
     pub payload_len: u16,
     pub seed: u64,
+    /// days that pass between the approval and the delivery
+    #[serde(default)]
+    pub days_before: u16,
+    /// days that pass after the first delivery, before anything is tried again
+    #[serde(default)]
+    pub days_after: u16,
 }
+
+const DAY: u32 = 17280;
+const DAYS: [u16; 8] = [0, 0, 1, 29, 31, 61, 100, 150];
 
 impl Property for C16 {
     type Case = Case;
@@ -111,7 +120,7 @@ impl Property for C16 {
         "C16"
     }
     fn rule(&self) -> &'static str {
-        "proptest single cases: app (the shipped example / a minimal harness app that calls the interface's validate_message helper and aborts on error) x delivery (chain, id, source address from small pools incl. empty strings; payload 0..600 bytes) x at most one deviation (never approved; approved for another app / payload / source address / id / chain; delivered twice; additionally approved for the other app; approval re-submitted, or the id re-approved with other content, after delivery; approved under another split of the same characters between chain and id, for 8 separators; approval and delivery differing only in letter case or a trailing space of chain / id / source address, in either direction). All 2x31 app x deviation combinations are also enumerated as fixed cases. Oracle: the app's effect (its executed event / counter) and the gateway's transition to executed happen iff the gateway held a matching unexecuted approval naming this app; otherwise the delivery fails, nothing is emitted and the ledger snapshot is identical. non-trivial = a deviation is present; distinct by Debug hash"
+        "proptest single cases: app (the shipped example / a minimal harness app that calls the interface's validate_message helper and aborts on error) x delivery (chain, id, source address from small pools incl. empty strings; payload 0..600 bytes) x at most one deviation (never approved; approved for another app / payload / source address / id / chain; delivered twice; additionally approved for the other app; approval re-submitted, or the id re-approved with other content, after delivery; approved under another split of the same characters between chain and id, for 8 separators; approval and delivery differing only in letter case or a trailing space of chain / id / source address, in either direction) x 0..150 days passing between approval and delivery and between the first delivery and whatever is tried afterwards (ledger sequence and clock advanced; temporary entries of that age are gone). All 2x31 app x deviation combinations are also enumerated as fixed cases. Oracle: the app's effect (its executed event / counter) and the gateway's transition to executed happen iff the gateway held a matching unexecuted approval naming this app; otherwise the delivery fails, nothing is emitted and the ledger snapshot is identical. non-trivial = a deviation is present; distinct by Debug hash"
     }
     fn fixed_is_exhaustive(&self) -> Option<&'static str> {
         Some("app x deviation matrix (2 x 31) enumerated completely with one fixed delivery; deliveries sampled")
@@ -120,15 +129,21 @@ impl Property for C16 {
         tier.pick(20000, 200000)
     }
     fn strategy(&self, _tier: Tier) -> BoxedStrategy<Case> {
-        (any::<bool>(), prop::sample::select(DEVS.to_vec()), 0u8..3, 0u8..3, 0u8..3, 0u16..600, any::<u64>())
-            .prop_map(|(example_app, dev, chain, id, src, payload_len, seed)| Case { example_app, dev, chain, id, src, payload_len, seed })
+        (any::<bool>(), prop::sample::select(DEVS.to_vec()), 0u8..3, 0u8..3, 0u8..3, 0u16..600, any::<u64>(), prop::sample::select(DAYS.to_vec()), prop::sample::select(DAYS.to_vec()))
+            .prop_map(|(example_app, dev, chain, id, src, payload_len, seed, days_before, days_after)| Case { example_app, dev, chain, id, src, payload_len, seed, days_before, days_after })
             .boxed()
     }
     fn fixed_cases(&self, _tier: Tier) -> Vec<Case> {
         let mut v = vec![];
         for example_app in [true, false] {
             for dev in DEVS {
-                v.push(Case { example_app, dev, chain: 0, id: 0, src: 0, payload_len: 10, seed: 1 });
+                v.push(Case { example_app, dev, chain: 0, id: 0, src: 0, payload_len: 10, seed: 1, days_before: 0, days_after: 0 });
+                if matches!(dev, Dev::None | Dev::DeliveredTwice | Dev::ResubmittedApprovalAfterDelivery | Dev::ReapprovedOtherContentAfterDelivery) {
+                    for d in [31u16, 61, 150] {
+                        v.push(Case { example_app, dev, chain: 0, id: 0, src: 0, payload_len: 10, seed: 1, days_before: 0, days_after: d });
+                        v.push(Case { example_app, dev, chain: 0, id: 0, src: 0, payload_len: 10, seed: 1, days_before: d, days_after: 0 });
+                    }
+                }
             }
         }
         v
@@ -189,6 +204,10 @@ impl Property for C16 {
             gw.approve(&env, &set, &approvals)?;
         }
         let _ = stranger;
+        if case.days_before > 0 {
+            advance_ledgers(&env, DAY * case.days_before as u32);
+            cx.label("days_pass_between_approval_and_delivery");
+        }
         if case.dev != Dev::None {
             cx.nontrivial();
         }
@@ -233,7 +252,11 @@ impl Property for C16 {
             if !case.example_app {
                 ensure_p!(mini.count() == count0 + 1, "app counter not incremented");
             }
-            // a delivered message cannot be delivered again
+            // a delivered message cannot be delivered again, however much later
+            if case.days_after > 0 {
+                advance_ledgers(&env, DAY * case.days_after as u32);
+                cx.label(if case.days_after > 60 { "more_than_60_days_pass_after_delivery" } else { "days_pass_after_delivery" });
+            }
             let snap1 = snapshot(&env);
             let ev1 = events_len(&env);
             let again = deliver();
